@@ -640,6 +640,7 @@ class Cfg:
         self.use_vidx = True
         self.max_stmts = 4
         self.odd_names = 6  # percent chance per argument of an internal-looking name
+        self.type_depth = 1  # nesting depth of generated tuple argument types
         self.ret_kinds = ("bool", "int", "tuple", "char", "fixed")
         self.__dict__.update(kw)
 
@@ -749,13 +750,32 @@ class G:
         for ft in formals:
             fte = expand(ft) if is_tuple(ft) else ft
             ps = [p_ for p_ in self.paths(lambda t: (expand(t) if is_tuple(t) else t) == fte) if _root(p_) not in self.pyint]
+            lit = self.literal_arg(ft) if is_tuple(fte) and (not ps or self.chance(25)) else None
             if fte == BOOL and (not ps or self.chance(25)):
                 args.append(self.gen_bool(1))
+            elif lit is not None:
+                args.append(lit)
             elif ps:
                 args.append(self.pick(ps))
             else:
                 return None
         return args
+
+    def literal_arg(self, ft):
+        """a tuple / list LITERAL of exactly the formal's type, built from variables and elements: g((x, (y, z)))"""
+        fte = expand(ft) if is_tuple(ft) else ft
+        if is_tuple(fte):
+            elts = []
+            for et in fte[1]:
+                e = self.literal_arg(et)
+                if e is None:
+                    return None
+                elts.append(e)
+            return ["tup", elts]  # (a python list would compare unequal to the tuples of the reference run)
+        ps = [p_ for p_ in self.paths(lambda t: (expand(t) if is_tuple(t) else t) == fte) if _root(p_) not in self.pyint]
+        if fte == BOOL and (not ps or self.chance(20)):
+            return self.gen_bool(1)
+        return self.pick(ps) if ps else None
 
     def gen_call(self, pred):
         """a call of a known function whose return type satisfies pred, or None"""
@@ -1128,7 +1148,7 @@ def program(draw, cfg=None, ret=None, name="f", args=None, fns=None, params=()):
         for i in range(nargs):
             if rem < 1:
                 break
-            t = any_type(draw, cfg, max(1, rem - (nargs - 1 - i)))
+            t = any_type(draw, cfg, max(1, rem - (nargs - 1 - i)), depth=getattr(cfg, "type_depth", 1))
             rem -= nbits(t)
             nm = NAMES[i]
             if cfg.odd_names and draw(st.integers(0, 99)) < cfg.odd_names:
@@ -1193,12 +1213,12 @@ def program(draw, cfg=None, ret=None, name="f", args=None, fns=None, params=()):
         g.pyint.discard(n2)
         return ["unpack", [n1, n2], ["tup", [e1, e2]]]
 
-    def simple(depth, target=None):
+    def simple(depth, target=None, allow_multi=True):
         """assignment / aug-assignment to an existing scalar variable"""
         sc = scalars()
         if not sc:
             return None
-        if target is None and cfg.use_tuple and len(sc) >= 2 and g.chance(12):
+        if allow_multi and target is None and cfg.use_tuple and len(sc) >= 2 and g.chance(12):
             m_ = multi(depth)
             if m_:
                 return m_
@@ -1238,7 +1258,9 @@ def program(draw, cfg=None, ret=None, name="f", args=None, fns=None, params=()):
                 out.append(s_)
             n = max(n, 2)
         for _ in range(n - len(out)):
-            s_ = simple(max(1, d - 1))
+            # (a multi-assignment goes through the library's _temptup, and a variable first assigned inside a
+            # branch is rejected by the library: nothing to judge there)
+            s_ = simple(max(1, d - 1), allow_multi=False)
             if s_:
                 out.append(s_)
         return out
